@@ -212,6 +212,7 @@ fn main() {
             write_lines(&format!("{}/cases_db.txt", out), &rep.cases_db);
             write_lines(&format!("{}/impl_db.txt", out), &rep.imp_db);
             write_lines(&format!("{}/desc_db.txt", out), &rep.desc_db);
+            write_lines(&format!("{}/skipped_db.txt", out), &rep.desc_db_skipped);
             write_stats(&format!("{}/stats.json", out), &rep.stats, rep.evaluations, rep.nontrivial, &rep.samples);
         }
         "c12" => {
